@@ -205,7 +205,7 @@ class CallMixin:
             f = self.uf('spec_' + sf.name, pts, rt)
             app = f(*zs)
         if fuel is None:
-            fuel = self.fuel_left.get(sf.name, sf.fuel)
+            fuel = self.fuel_left.get(sf.name, max(sf.fuel, self.force_fuel))
         depth_key = (sf.name, app.get_id())
         if fuel > 0 and depth_key not in st.axd and depth_key not in self.unfolding:
             self.unfolding.add(depth_key)
@@ -231,6 +231,12 @@ class CallMixin:
             if bvs:
                 ax = self.forall_pat(bvs, ax, app)
             st.add_axiom(depth_key, ax)
+        if isinstance(rt, T.Seq):
+            ax2 = rt.len(app) >= 0
+            bvs = self.involves_bound(zs)
+            if bvs:
+                ax2 = self.forall_pat(bvs, ax2, app)
+            st.add_axiom(('seqlen', sf.name, app.get_id()), ax2)
         return SV(rt, app)
 
     def eval_spec_body(self, stmts, st):
@@ -262,6 +268,10 @@ class CallMixin:
             return self.call_name(f.id, n, st)
         if isinstance(f, ast.Attribute):
             return self.call_method(f, n, st)
+        fsrc = ast.unparse(f)
+        if fsrc in self.c.calls:
+            args, kw = self.args_of(n, st)
+            return self.call_contract(self.eng.prop.contracts[self.c.calls[fsrc]], args, kw, st, n)
         raise Unsupported('call of %s' % ast.unparse(f))
 
     def args_of(self, n, st):
@@ -380,6 +390,14 @@ class CallMixin:
 
     def str_to_int(self, v, st):
         raise Unsupported('int(str)')
+
+    def bi_print(self, n, st):
+        for a in n.args:
+            try:
+                self.ev(a, st)
+            except Unsupported:
+                self.eng.notes.append('print argument not modelled at line %s' % n.lineno)
+        return none_sv()
 
     def bi_str(self, n, st):
         if not n.args:
@@ -505,6 +523,72 @@ class CallMixin:
         d = self.ev(n.args[0], st)
         return SV(T.Set(d.t.k), z3.Select(st.h(self.eng.k_dhas(d.t.k)), d.z))
 
+    def bi_ghost(self, n, st):
+        nm = n.args[0].value
+        t = self.eng.ptype(self.eng.prop.ghosts[nm])
+        return SV(t, st.h(('g', nm, t)))
+
+    def bi_next(self, n, st):
+        """next((x for x in SEQ if P(x)), default): the first element satisfying P, else default."""
+        if len(n.args) != 2 or not isinstance(n.args[0], ast.GeneratorExp):
+            raise Unsupported('next() form')
+        g = n.args[0]
+        if len(g.generators) != 1 or not isinstance(g.elt, ast.Name) or not isinstance(g.generators[0].target, ast.Name) \
+                or g.elt.id != g.generators[0].target.id:
+            raise Unsupported('next() over a mapping generator')
+        gen = g.generators[0]
+        it = gen.iter
+        if isinstance(it, ast.Call) and isinstance(it.func, ast.Attribute) and it.func.attr in ('values', 'keys', 'items') and not it.args:
+            d = self.ev(it.func.value, st)
+            self.nonnull(d, st)
+            s = self.dict_snapshot(d, it.func.attr, st)
+        else:
+            s = self.as_seq(self.ev(it, st), st)
+        dflt = self.ev(n.args[1], st)
+
+        def pred(i):
+            self.bound.append({gen.target.id: SV(s.t.elem, z3.Select(seq_arr(s), i))})
+            was = self.spec
+            self.spec = True
+            try:
+                return zand([self.truthy(self.ev(c, st), st) for c in gen.ifs])
+            finally:
+                self.spec = was
+                self.bound.pop()
+        j = z3.Int(fresh_name('first'))
+        q = z3.Int(fresh_name('q'))
+        found = z3.And(0 <= j, j < seq_len(s), pred(j), z3.ForAll([q], z3.Implies(z3.And(0 <= q, q < j), z3.Not(pred(q)))))
+        none = z3.ForAll([q], z3.Implies(z3.And(0 <= q, q < seq_len(s)), z3.Not(pred(q))))
+        isf = z3.Bool(fresh_name('found'))
+        st.assume(z3.Implies(isf, found))
+        st.assume(z3.Implies(z3.Not(isf), none))
+        return ite(isf, self.loaded(SV(s.t.elem, z3.Select(seq_arr(s), j)), st), dflt)
+
+    def bi_before(self, n, st):
+        """spec: text before the first occurrence of sep (whole string if absent) -- str.split(sep, maxsplit=1)[0]."""
+        s, sep = self.ev(n.args[0], st), self.ev(n.args[1], st)
+        i = z3.IndexOf(s.z, sep.z, 0)
+        return SV(T.Str, z3.If(i < 0, s.z, z3.SubString(s.z, 0, i)))
+
+    def bi_after(self, n, st):
+        """spec: text after the first occurrence of sep -- str.split(sep, maxsplit=1)[1]."""
+        s, sep = self.ev(n.args[0], st), self.ev(n.args[1], st)
+        i = z3.IndexOf(s.z, sep.z, 0)
+        return SV(T.Str, z3.SubString(s.z, i + z3.Length(sep.z), z3.Length(s.z)))
+
+    def bi_find(self, n, st):
+        s, sep = self.ev(n.args[0], st), self.ev(n.args[1], st)
+        return SV(T.Int, z3.IndexOf(s.z, sep.z, 0))
+
+    def bi_unfold(self, n, st):
+        """spec: evaluate the argument with opaque spec functions unfolded once."""
+        was = self.force_fuel
+        self.force_fuel = 1
+        try:
+            return self.ev(n.args[0], st)
+        finally:
+            self.force_fuel = was
+
     def bi_fresh(self, n, st):
         """spec: the reference was allocated after function entry."""
         v = self.ev(n.args[0], st)
@@ -585,8 +669,20 @@ class CallMixin:
             return SV(T.Str, self.str_replace(s.z, args[0], args[1], st))
         if meth == 'join' and len(args) == 1:
             return self.call_spec_or_uf('str_join', [s, self.as_seq(args[0], st)], st)
-        if meth == 'isdigit' and not args and False:
-            pass
+        if meth == 'split' and len(args) == 1 and len(n.keywords) == 1 and n.keywords[0].arg == 'maxsplit' \
+                and isinstance(n.keywords[0].value, ast.Constant) and n.keywords[0].value.value == 1:
+            sep = args[0].z
+            i = z3.IndexOf(s.z, sep, 0)
+            k = z3.Int(fresh_name('k'))
+            head = z3.SubString(s.z, 0, i)
+            tail = z3.SubString(s.z, i + z3.Length(sep), z3.Length(s.z))
+            arr = z3.Lambda([k], z3.If(i < 0, s.z, z3.If(k == 0, head, tail)))
+            r = mk_seq(T.Str, z3.If(i < 0, I(1), I(2)), arr)
+            return r if self.spec else self.new_list_from_seq(r, st)
+        if meth == 'split' and len(args) == 1 and not n.keywords:
+            r = self.call_spec_or_uf('str_split', [s, args[0]], st)
+            st.assume(seq_len(r) >= 1)
+            return r if self.spec else self.new_list_from_seq(r, st)
         if meth == 'isdigit' and not args:
             return self.call_spec_or_uf('str_isdigit', [s], st)
         raise Unsupported('str.%s (line %s)' % (meth, n.lineno))
@@ -676,4 +772,6 @@ BUILTIN_UF = {
     'str_isdigit': ([T.Str], T.Bool, None),
     'str_join': ([T.Str, T.Seq(T.Str)], T.Str, None),
     'fmt_03d': ([T.Int], T.Str, None),
+    'str_split': ([T.Str, T.Str], T.Seq(T.Str), None),
+    'shlex_split': ([T.Str], T.Seq(T.Str), None),
 }
